@@ -32,7 +32,7 @@ Definition put32 (off : Z) (b : bytes) (v : Z) : option bytes :=
   else Some (ztake off b ++ le32 v ++ zdrop (off + 4) b).
 
 (* outcomes: Ok / error (small enum) / Go run-time panic *)
-Inductive err := ESecurityChecks | EDecode | EUnknownChannel | ETooManyChunks | EMessageTooLarge | EEOF | EUnsupported | EOutOfFuel.
+Inductive err := ESecurityChecks | EDecode | EUnknownChannel | ETooManyChunks | EMessageTooLarge | EEOF | EUnsupported | EOutOfFuel | ESequenceNumber.
 Inductive res (A : Type) := Ok (a : A) | Err (e : err) | Panic.
 Arguments Ok {A} a.
 Arguments Err {A} e.
